@@ -2,7 +2,7 @@
 (***************************************************************************)
 (* The bounded graph family of C10 and the load machine.                    *)
 (*                                                                          *)
-(* Family, three parts:                                                     *)
+(* Family, five parts (the last two: WrapFamily, LoaderFamily, see there):  *)
 (*  - incidence: bipartite incidence patterns of k entry points over n      *)
 (*    shared modules (module j is imported by the entry points in the       *)
 (*    non-empty set masks[j], a bit mask; patterns up to the order of the   *)
@@ -24,6 +24,15 @@
 (*    export, used or not by the entry point's own code.                    *)
 (*  - name collisions (NameFamily): all modules in one shared chunk that    *)
 (*    exports every binding, in every naming.                               *)
+(*  - wrap kinds (WrapFamily): k entry points reach a shared module, written *)
+(*    as an ES module or in CommonJS syntax, each in its own way (import     *)
+(*    statement, require(), import(), through wrapped / requiring            *)
+(*    intermediates): the wrap kind of every file and the chunk of every     *)
+(*    wrapper symbol (init_x / require_x) follow.                            *)
+(*  - loaders and CSS (LoaderFamily): an import() target parsed by the js,   *)
+(*    ts, tsx or jsx loader that reaches style sheets or not (a JS entry     *)
+(*    point with CSS has a JS chunk and a CSS chunk), also imported by       *)
+(*    statement or not, with a shared JSON module or not.                    *)
 (*                                                                          *)
 (* Init chooses a graph G; Setup computes L == Compute(G) (Link.tla) and,   *)
 (* when Export is TRUE, prints the CASE record: the graph, the resolved     *)
